@@ -36,9 +36,8 @@ def digests(prop, seed, lo, hi, reverse):
     out = {}
     for i in idx:
         seed_i = core.H(seed, check.PROPERTY, i)
-        run = check.generate(seed_i, cfg)
-        status, payload, dg = core.execute_one(check, run, core.Coverage(),
-                                               cfg.get('wall_cap', 300))
+        run, status, payload, dg, _ = core.run_isolated(
+            check, cfg, seed_i, None, cfg.get('wall_cap', 300))
         sig = ''
         if status == 'violation':
             sig = payload['class'] + '/' + payload['site']
